@@ -3,7 +3,7 @@
    generic case analysis [tie] on every test both sides make.  The proof text does not depend on the source. *)
 From Coq Require Import ZArith List Bool String.
 Import ListNotations.
-From OSQ Require Import Num IR Construct DefaultTable Matrix Check ABA Merge McKay CNOTDec Constants ConstCheck Kernels.
+From OSQ Require Import Num IR Construct DefaultTable Matrix Check ABA Merge McKay CNOTDec Constants Kernels.
 
 (* unfold everything except the functions both sides call with the same arguments *)
 Ltac tie_norm :=
